@@ -148,7 +148,9 @@ def drive(rec):
         try:
             els = [Element.from_atomic_number(z) for z in (np.array(zs, dtype=np.uint8) if len(zs) % 2 else zs)]
             t["sorted"] = [int(e.atomic_number) for e in sorted(els)]
-            t["formula"] = chemical_formula(els)
+            # the atoms may arrive as any iterable: a list, a tuple, or a single-pass one (a generator over labels)
+            how = len(zs) % 3
+            t["formula"] = chemical_formula(els if how == 0 else (tuple(els) if how == 1 else (e for e in els)))
             sub = chemical_formula(els, subscript=True)
             # subscript digits are transliterated to ASCII digits; an ASCII digit in the subscript rendering is not a
             # subscript and is shipped as '#'
@@ -173,7 +175,8 @@ def run(ctx):
             continue
         parts = line.split("|", 8)
         recs.append({"k": "spell", "sk": parts[1], "z": int(parts[2]), "c1": int(parts[3]), "c2": int(parts[4]),
-                     "v": int(parts[5]), "a": int(parts[6]), "b": int(parts[7]), "text": parts[8].replace("\\t", "\t"),
+                     "v": int(parts[5]), "a": int(parts[6]), "b": int(parts[7]),
+                     "text": parts[8].replace("\\t", "\t").replace("\\n", "\n").replace("\\r", "\r"),
                      "src": "tlc-generated"})
     ctx.notes["spellings_from_tlc"] = len(recs)
     recs += [{"k": "int", "n": n} for n in range(-200, 301)]
